@@ -57,7 +57,14 @@ func (m *URNsModifier) Apply(eng flows.Engine, env envs.Environment, sa flows.Se
 	for _, urn := range m.URNs {
 		urn := urn.Normalize()
 
-		if err := urn.Validate(); err != nil {
+		// a URN whose query doesn't parse can't be read back (flows.ParseRawURN fails, and with it ReadContact and
+		// ReadSession), so it is no more valid than one whose path is bad
+		err := urn.Validate()
+		if err == nil {
+			_, err = urn.Query()
+		}
+
+		if err != nil {
 			log(events.NewErrorf("'%s' is not valid URN", urn))
 		} else {
 			if m.Modification == URNsAppend || m.Modification == URNsSet {
